@@ -284,9 +284,27 @@ def leftover_empty_block(rng):
     return {"isa": "X64", "ff": "ELF", "text": text, "externs": ["ext_a"], "edits": edits}
 
 
+def labels_between_patches(rng):
+    """an earlier patch of the batch defines (global) labels that a later patch of the same block branches to; the
+    labels sit at the end of the first patch, so they are retargeted through the cache when its empty block goes"""
+    n = rng.randint(3, 5)
+    text = [
+        {"kind": "code", "func": 0, "entry": True, "insns": [["push"]] * n, "syms": [{"name": "X", "at_end": False}]},
+        {"kind": "code", "func": 0, "insns": [["ret"]], "syms": [{"name": "Y", "at_end": False}]},
+    ]
+    k1 = rng.randint(0, n - 1)
+    k2 = rng.randint(k1 + 1, n)
+    first = rng.choice(["nop\nl1:\nl2:", "nop\nl1:", "l1:\nl2:\nnop", "nop\nl1:\nnop\nl2:"])
+    second = "jne l1\njne l2" if "l2" in first else "jne l1"
+    edits = [{"op": "insert", "block": 0, "off": k1, "asm": first}, {"op": "insert", "block": 0, "off": k2, "asm": second}]
+    return {"isa": "X64", "ff": "ELF", "text": text, "externs": ["ext_a"], "edits": edits}
+
+
 def run(ctx):
     for _ in range(ctx.budget(30, 600)):
         check_case(ctx, leftover_empty_block(ctx.rng))
+    for _ in range(ctx.budget(30, 600)):
+        check_case(ctx, labels_between_patches(ctx.rng))
     for c in LE.load_corpus():
         check_case(ctx, c)
     for n in range(ctx.budget(600, 15000)):
